@@ -135,8 +135,6 @@ func vfH_C10_flush_symbolic_mtu() {
 	k := vfNewKCP("", vfCfg{symbolicMTU: true}, &em)
 	sh := []vfShape{{1, 1, 0, 0, 1}, {2, 0, 1, 0, 2}, {0, 2, 0, 0, 0}}[vfPick("shape", 0, 2)]
 	vfArbitraryKCP("", k, sh)
-	vfAssume(k.probe == 0)
-	vfAssume(k.rmt_wnd > 0)
 	vfReach("pre")
 	vfSetClock(vfU32("now"))
 	k.flush(IKCP_FLUSH_FULL)
